@@ -23,16 +23,16 @@ def stepMembers (line : String) : Option String :=
   | ["pym.dom", name, len, cutoff] =>
     match len.toNat?, cutoff.toNat? with
     | some l, some c =>
-      let s : DomainS.Self := { _name := name, _length := l }
+      let s : DomainSM.Self := { _name := name, _length := l }
       let recorder : String → Nat → Py.M Nat := fun n k => throw (.fault ("requested " ++ n ++ "," ++ toString k))
-      let inv := match ((py_DomainS_invert recorder).exec s).1 with
+      let inv := match ((py_DomainSM_invert recorder).exec s).1 with
         | .error (.fault k) => if k.startsWith "requested " then String.ofList (k.toList.drop 10) else "err " ++ k
         | .error _ => "err other"
         | .ok _ => "err no-request"
-      some ("name=" ++ showE id (py_DomainS_name.exec s).1 ++ " length=" ++ showE toString (py_DomainS_length.exec s).1 ++
-        " dtype=" ++ showE id ((py_DomainS_dtype c).exec s).1 ++ " iscomp=" ++ showE showB (py_DomainS_is_complement.exec s).1 ++
-        " cname=" ++ showE id (py_DomainS_cname.exec s).1 ++ " inv=" ++ inv ++ " len=" ++ showE toString (py_DomainS_len.exec s).1 ++
-        " bool=" ++ showE showB (py_DomainS_truth.exec s).1)
+      some ("name=" ++ showE id (py_DomainSM_name.exec s).1 ++ " length=" ++ showE toString (py_DomainSM_length.exec s).1 ++
+        " dtype=" ++ showE id ((py_DomainSM_dtype c).exec s).1 ++ " iscomp=" ++ showE showB (py_DomainSM_is_complement.exec s).1 ++
+        " cname=" ++ showE id (py_DomainSM_cname.exec s).1 ++ " inv=" ++ inv ++ " len=" ++ showE toString (py_DomainSM_len.exec s).1 ++
+        " bool=" ++ showE showB (py_DomainSM_truth.exec s).1)
     | _, _ => some "bad-op"
   | _ => none
 
